@@ -366,6 +366,10 @@ func (w *World) checkLedgerNow(kind string) {
 		w.fail("refcount-negative", kind, "an item's reference count dropped below zero: %s", w.Ledger.Negative[0])
 		return
 	}
+	if len(w.Ledger.Resurrected) > 0 {
+		w.fail("refcount-premature-release", kind, "ItemAddRef on an item whose last reference had already been released: %s", w.Ledger.Resurrected[0])
+		return
+	}
 	for _, h := range w.Stores {
 		if h == nil || h.Closed || h.Stale || h.S == nil || h.CB&CBRef == 0 || h.needReopen {
 			continue
